@@ -142,6 +142,15 @@ def run(tier, seed, only=None):
         out.append(o7(tier))
     if not only or 'O8' in only:
         out.append(o8(tier))
+    if not only or 'O11' in only:
+        from props import memobs, C10
+        out.append(memobs.last_message_head(tier, 'O11', 'O11'))
+        r12 = memobs.save_message_upsert(tier, 'O12', 'O12')
+        r12.title = 'memory (shared with C07-O7): at the per-group limit the message evicted is the OLDEST by created_at, never the head of the listing the pointer designates -- ' + r12.title[:150]
+        out.append(r12)
+        r13 = C10.o4(tier); r13.oid = 'O13'
+        r13.title = 'SQLite (shared with C10-O4): a re-saved message gets all its sort keys from the new record (processed_at included), so the listing order and the pointer computed from the new record agree'
+        out.append(r13)
     if not only or 'O10' in only:
         from props import C02
         r10 = C02.o3(tier); r10.oid = 'O10'
